@@ -36,8 +36,10 @@ MANIFEST = dict(
          "oracle, dictionary, strategy and valid composition every alternative of every engine tiles 0..len (chain from 0, "
          "contiguous, non-empty intervals, ends at len), has one character per symbol, shows non-syllable symbols verbatim at "
          "their position, the display is the positional concatenation, every text has a dictionary / selection / glue "
-         "provenance; plus the conversion half of C04 (selection_shown, break_not_spanned). Proved by induction over the code "
-         "(BFS parent invariant, root++spur chains, glue fold invariant, sorted-partition lemma for the simple engine). Tie: "
+         "provenance; plus the conversion half of C04 (selection_shown, break_not_spanned); liveness: with a word per syllable a "
+         "result exists (no unwrap panic, BFS complete, loops finish within the model's fuel, scores inside i32 under ScoreBound) "
+         "and the fuel never runs out on any valid composition. Proved by induction over the code (BFS parent/closure "
+         "invariants, root++spur chains, glue fold invariant, sorted-partition lemma for the simple engine). Tie: "
          "sampled correspondence on generated dictionaries x compositions x 3 engines with the oracle replaying the "
          "implementation's picks. Known finding F31 (API admits invalid selections) refuted/excluded by hypothesis.",
     note="Trusted: Lean kernel (axioms propext, Classical.choice, Quot.sound only), the harness, the compiled model driver, the "
